@@ -24,6 +24,7 @@ ASSUMPTIONS = ["pydantic validation modelled by the BaseModel stub; validator bo
 SHAPES = [
     ("expand", [[1, 1]], False, Q), ("expand", [[1, 1]], True, Q), ("expand", [[1, 0], [0, 1]], False, Q),
     ("expand", [[1, 0], [0, 1]], True, Q),
+    ("expand", [[1, 1]], False, Q, dict(params=dict(built="merge"))), ("expand", [[1, 0], [0, 1]], True, Q, dict(params=dict(built="merge"))),
     ("expand", [[2, 2]], True, T), ("expand", [[1, 1], [1, 1]], True, T, dict(budget=900, shard=6)),
     ("expand", [[1, 0], [1, 0], [1, 0]], False, T, dict(budget=1500, shard=8)),
 ]
@@ -38,8 +39,10 @@ def build(job):
 
     def run(eng):
         api = eng.mods.api
-        recs, delim, c = fixture(eng, params)
-        curie, P, I = mk_curie(eng, delim)
+        from .common import get_delim
+        delim0 = get_delim(eng, params.get("symdelim", False))
+        curie, P, I = mk_curie(eng, delim0)
+        recs, delim, c = fixture(eng, params, warm=lambda cv: (cv.expand(curie), cv.expand_all(curie), cv.is_curie(curie)))
         p, i = _s(P), _s(I)
         got = c.expand(curie)
         pair = c.expand_pair(P, I)
